@@ -3,3 +3,5 @@ import JdProofs.EqualsList
 import JdProofs.NoPanic
 import JdProofs.StrictPatch
 import JdProofs.SetPatch
+import JdProofs.YamlProofs
+import JdProofs.MergeProofs
